@@ -30,6 +30,8 @@ import ClarabelProofs.Lemmas.KktQdldlExample
 import ClarabelProofs.Lemmas.KktScalingFits
 import ClarabelProofs.Lemmas.KktGenPowMulHs
 import ClarabelProofs.Lemmas.NonsymGenPowScaling
+import ClarabelProofs.Lemmas.KktSymOfMain
+import ClarabelProofs.Lemmas.KktSymOfExample
 
 namespace Clarabel.C11
 open Clarabel Clarabel.Csc Clarabel.Kkt
@@ -1576,5 +1578,232 @@ example : ∃ (K : Clarabel.PsdTri.Cone ℝ) (RRt : Array ℝ),
     Clarabel.PsdTri.assembleScaling 1 #[1] #[1] #[1] #[1] #[1] = .ok (K, RRt) := ⟨_, _, rfl⟩
 
 end scaling_models
+
+-- ====================================================================================
+-- round 4: the dense meaning of the assembled + updated + regularised matrix IS `listKkt`
+-- ====================================================================================
+
+section assembled_sym
+open Clarabel.Lemmas.KktInertia Clarabel.Lemmas.KktInertiaList Clarabel.Lemmas.KktInertiaCones
+open Clarabel.Lemmas.KktSpec Clarabel.Lemmas.KktUpdateAsm
+open Clarabel.Lemmas.KktSymOfIdx Clarabel.Lemmas.KktSymOfEntries Clarabel.Lemmas.KktSymOfValues
+open Clarabel.Lemmas.KktSymOfMain
+
+/-
+  Vocabulary (`Lemmas/KktSymOf{Idx,Entries,Values,Main}.lean`):
+  * `mTot cones = Σ numel`, `pTot cones = Σ pdim`; `kktEquiv n cones N hN : Fin N ≃ KktIdx n cones`
+    for `N = n + mTot + pTot`, inverse of the flat column `flatPos` (`flatPos_kktEquiv`);
+  * `PdOf P n x x' = symOf P x x'`: the symmetric matrix whose upper triangle `P` stores;
+  * `HOf cones blocks i = coneH cones[i] blocks[i]`: the vector that `get_Hs` reports for cone `i`,
+    read as a symmetric matrix — the diagonal if `Hs_is_diagonal`, else the packed upper triangle;
+  * `VOf cones scal i c a = coneV scal[i] c a`: minus the stored `c`-th MINUS auxiliary column at
+    row `a`: `η²·v[a]` (second-order cone), `√μ·q[a]` on the first `dim1` rows / `√μ·r[a − dim1]` on
+    the others (generalised power cone);
+  * `eOf`, `epOf = coneE scal[i]`: modulus of the auxiliary diagonal: `η²` (`−η²` on the `v`
+    variable, `+η²` on the `u` variable) resp. `1` (`−1, −1, +1`);
+  * `couplingOf n cones S`: the block (cone rows and minus-auxiliary) × (primal and plus-auxiliary)
+    of `S` — the rows of `A` and the `+` auxiliary columns (`−η²u`, `−√μ p`) as stored; `listKkt`
+    is quasidefinite for ANY coupling;
+  * `VecFits c`: `|u| = |v| = dim` (sparse second-order cone), `|p| = dim1 + dim2`, `|q| = dim1`
+    (generalised power cone) — the lengths `update_scaling` gives them (`layout_fits_soc`,
+    `layout_fits_genpow`).
+-/
+
+/-- [S] `C11.kkt_index_equiv`: **the columns of the assembled matrix are in bijection with the
+structured indices of `listKkt`** — for every cone list, `flatPos` (primal `x ↦ x`; row `a` of
+cone `i ↦ n + Σ_{j<i} numel + a`; auxiliary variable `c` of cone `i ↦ n + m + Σ_{j<i} pdim + c`, the
+`−` variables first) is injective with range exactly `0 … N−1`, `N = n + Σ numel + Σ pdim`; `e` is
+its inverse. -/
+theorem kkt_index_equiv (n : Nat) (cones : List ConeSpec) (N : Nat)
+    (hN : N = n + mTot cones + pTot cones) :
+    ∃ e : Fin N ≃ KktIdx n cones, (∀ k, flatPos n cones (e k) = k.val) ∧
+      Function.Injective (flatPos n cones) ∧ ∀ idx, flatPos n cones idx < N :=
+  ⟨kktEquiv n cones N hN, flatPos_kktEquiv n cones N hN, flatPos_injective n cones,
+    fun idx => by rw [hN]; exact flatPos_lt n cones idx⟩
+
+/-- non-vacuity of `kkt_index_equiv`: the cone list `[nonneg 1, soc 5]` with `n = 2`: `N = 10`. -/
+example : (10 : Nat) = 2 + mTot [.nonneg 1, .soc 5] + pTot [.nonneg 1, .soc 5] := by decide
+
+variable {α : Type} [Field α] [LinearOrder α] [IsStrictOrderedRing α] [FloatLike α]
+
+/-- [F] `C11.assembled_symOf_eq_listKkt`: **the dense symmetric meaning of the assembled + updated +
+regularised KKT matrix IS `listKkt`, for every cone list** (zero, nonnegative, dense and sparse
+second-order, exponential, power, generalised power, PSD cones, any number of expansions).
+`K, map` are what `assemble_kkt_matrix` returns (upper triangle), `nz'` what `update` writes from
+scaling data with the layout of the cone list, `nzF` the values handed to the LDL engine by
+`regularize_and_refactor` with the signs of `_fill_signs`.  Then for all structured indices
+`symOf {K with nzval := nzF} (flatPos a) (flatPos b) = listKkt Pd ep B H V e ε a b`, and, indexed by
+the columns `Fin K.n` through the equivalence `e` of `kkt_index_equiv`, `symOf … i j = listKkt …
+(e i) (e j)`: primal block `symOf P + εI`, for each cone `−[[Hᵢ + εI, Vᵢ], [Vᵢᵀ, diag(eᵢ) + εI]]`
+with `Hᵢ` its `get_Hs` block and `Vᵢ, eᵢ` its expansion data, plus-auxiliary diagonal `ep + ε`,
+coupling `B` as stored, `ε = r.eps` (`computeRegularizer`, `refinement_ldl_copy`), zero elsewhere. -/
+theorem assembled_symOf_eq_listKkt {P A K : Csc α} {cones : List ConeSpec} {map : LDLDataMap}
+    (hin : KktInputs P A cones) (hasm : assembleKktMatrix P A cones .triu = .ok (K, map))
+    (scal : List (ConeScaling α)) (hfits : LayoutFits scal cones)
+    (hvec : ∀ i (hi : i < scal.length), VecFits scal[i]) (nz' : Array α)
+    (hup : updateValues K.nzval map scal = .ok nz') (blocks : List (Array α))
+    (hget : scal.mapM getHs = .ok blocks)
+    (ds : Array Int) (hds : fillSigns A.m A.n map.sparse_maps = .ok ds) (cst prp : α)
+    (rr : Regularized α) (nzF : Array α)
+    (hreg : regularizeAndRestore nz' map.diag_full ds true cst prp = .ok (rr, nzF)) :
+    (∀ a b : KktIdx A.n cones,
+      Clarabel.Qdldl.symOf ({ K with nzval := nzF } : Csc α) (flatPos A.n cones a)
+          (flatPos A.n cones b)
+        = listKkt (PdOf P A.n) (epOf cones scal)
+            (couplingOf A.n cones (Clarabel.Qdldl.symOf ({ K with nzval := nzF } : Csc α)))
+            (HOf cones blocks) (VOf cones scal) (eOf cones scal) rr.eps a b) ∧
+    ∀ i j : Fin K.n,
+      Clarabel.Qdldl.symOf ({ K with nzval := nzF } : Csc α) i.val j.val
+        = listKkt (PdOf P A.n) (epOf cones scal)
+            (couplingOf A.n cones (Clarabel.Qdldl.symOf ({ K with nzval := nzF } : Csc α)))
+            (HOf cones blocks) (VOf cones scal) (eOf cones scal) rr.eps
+            (kktEquiv A.n cones K.n (asm_order hin hasm) i)
+            (kktEquiv A.n cones K.n (asm_order hin hasm) j) := by
+  have h := Clarabel.Lemmas.KktSymOfMain.assembled_symOf_eq_listKkt hin hasm scal hfits hvec nz' hup
+    blocks hget ds hds cst prp rr nzF hreg
+  refine ⟨h, fun i j => ?_⟩
+  rw [← h, flatPos_kktEquiv, flatPos_kktEquiv]
+
+/-- non-vacuity of `assembled_symOf_eq_listKkt` (over ℝ, `Lemmas/KktSymOfExample.lean`): `P = 0`
+(2×2, both diagonal entries filled in), `A` 6×2, cones `[nonneg 1, soc 5]` (one sparse expansion),
+scaling `w = e₀`, `η = 1`, static regulariser `1`: every hypothesis holds for what the model's own
+`assemble_kkt_matrix`, `update`, `_fill_signs`, `regularize_and_refactor` return. -/
+example : ∃ (P A K : Csc ℝ) (cones : List ConeSpec) (map : LDLDataMap)
+    (scal : List (ConeScaling ℝ)) (nz' : Array ℝ) (blocks : List (Array ℝ)) (ds : Array Int)
+    (rr : Regularized ℝ) (nzF : Array ℝ),
+    KktInputs P A cones ∧ assembleKktMatrix P A cones .triu = .ok (K, map) ∧
+    LayoutFits scal cones ∧ (∀ i (hi : i < scal.length), VecFits scal[i]) ∧
+    updateValues K.nzval map scal = .ok nz' ∧ scal.mapM getHs = .ok blocks ∧
+    fillSigns A.m A.n map.sparse_maps = .ok ds ∧
+    regularizeAndRestore nz' map.diag_full ds true 1 0 = .ok (rr, nzF) := by
+  obtain ⟨K, map, scal, nz', blocks, ds, rr, nzF, h1, h2, h3, h4, h5, h6, h7, _⟩ :=
+    Clarabel.Lemmas.KktSymOfExample.exAssembled
+  exact ⟨_, _, K, _, map, scal, nz', blocks, ds, rr, nzF,
+    Clarabel.Lemmas.KktSymOfExample.exInputs, h1, h2, h3, h4, h5, h6, h7⟩
+
+/-- [F] the hypothesis `hform` of `kkt_factorisation_signs_assembled` for a cone WITHOUT sparse
+expansion (zero, nonnegative, small second-order, exponential, power, PSD): its `get_Hs` block is
+positive semidefinite (C13 `nn_getHs_eq_mulHs`, `soc_dense_getHs_eq_mulHs`, `psd_getHs_eq_mulHs`;
+C14 `pd_scaling_posdef`) — `cone_form_nonsparse` on the blocks of `assembled_symOf_eq_listKkt`. -/
+theorem assembled_form_nonsparse {cones : List ConeSpec} (blocks : List (Array α))
+    (scal : List (ConeScaling α)) (i : Fin cones.length) (h0 : nMinus cones[i] = 0)
+    (hH : ∀ y, 0 ≤ qf (HOf cones blocks i) y) (y : Fin (cones[i].numel) → α)
+    (s : Fin (nMinus cones[i]) → α) :
+    0 ≤ expForm (HOf cones blocks i) (VOf cones scal i) (eOf cones scal i) y s :=
+  form_of_nonsparse blocks scal i h0 hH y s
+
+/-- [F] … for a SPARSE second-order cone: the scaling data `η, u, v, d` that `update` reads satisfy
+the defining equations `SocSparse` of `update_scaling` (`v = socV v1 w1`; C13
+`soc_update_sparse_data`) — `cone_form_soc` on the blocks of `assembled_symOf_eq_listKkt`. -/
+theorem assembled_form_soc {cones : List ConeSpec} (scal : List (ConeScaling α))
+    (hfits : LayoutFits scal cones) (blocks : List (Array α))
+    (hget : scal.mapM getHs = .ok blocks) (i : Fin cones.length) {k : ℕ}
+    (hci : cones[i] = .soc (k + 1)) (hbig : k + 1 > socNoExpansionMaxSize) {η d : α}
+    {u v : Array α} (hsc : scalAt scal i.val = .socSparse (k + 1) η u v d)
+    {w0 u0 u1 v1 : α} {w1 : Fin k → α}
+    (hvk : ∀ j : Fin (k + 1), v.getD j.val 0 = Clarabel.Lemmas.KktExpansion.socV v1 w1 j)
+    (hs : Clarabel.Lemmas.KktExpansion.SocSparse w0 w1 d u0 u1 v1)
+    (y : Fin (cones[i].numel) → α) (s : Fin (nMinus cones[i]) → α) :
+    0 ≤ expForm (HOf cones blocks i) (VOf cones scal i) (eOf cones scal i) y s :=
+  form_soc scal hfits blocks hget i hci hbig hsc hvk hs y s
+
+/-- non-vacuity of `assembled_form_nonsparse` / `assembled_form_soc`: on the example both apply (to
+the nonnegative cone and to the sparse second-order cone), giving `hform` for the whole list. -/
+example : ∃ (blocks : List (Array ℝ)) (scal : List (ConeScaling ℝ)),
+    ∀ i y s, 0 ≤ expForm (HOf Clarabel.Lemmas.KktSymOfExample.exCones blocks i)
+      (VOf Clarabel.Lemmas.KktSymOfExample.exCones scal i)
+      (eOf Clarabel.Lemmas.KktSymOfExample.exCones scal i) y s := by
+  obtain ⟨K, map, scal, nz', blocks, ds, rr, nzF, _, _, _, _, _, _, _, _, _, h⟩ :=
+    Clarabel.Lemmas.KktSymOfExample.exAssembled
+  exact ⟨blocks, scal, h⟩
+
+variable [LawfulFloatLike α]
+
+/-- [F] `C11.kkt_factorisation_signs_assembled`: **`kkt_factorisation_signs` WITHOUT the
+quasidefiniteness hypothesis — for the model's own assemble + update + regularise.**  `K, map` from
+`assemble_kkt_matrix`, `nz'` from `update` (scaling data with the layout of the cone list), `ds` from
+`_fill_signs`, `nzF` from `regularize_and_refactor` with `ε = r.eps > 0`; `P ⪰ 0` and every cone's
+bordered block `[[Hᵢ, Vᵢ],[Vᵢᵀ, diag eᵢ]]` has a nonnegative form (`assembled_form_nonsparse`,
+`assembled_form_soc`, `cone_form_genpow`: what C13/C14 supply).  Then for ANY valid permutation
+`perm` and dynamic-regularisation threshold `eps ≤ ε`, the model of
+`QDLDLFactorisation::new({K with nzval := nzF}, perm, ds, …)`
+* with dynamic regularisation on (`eps > 0`, `delta ≠ 0`) returns a factorisation — no `ZeroPivot`,
+  no panic;
+* every returned `F` has, for every row `r` of the permuted matrix, `D[r] ≥ ε` where
+  `ds[perm[r]] = +1` and `D[r] ≤ −ε` where `ds[perm[r]] = −1` (one of the two holds);
+* `regularize_count = 0`, and `positive_inertia = n + Σ nPlus` (`n` plus one per sparse expansion). -/
+theorem kkt_factorisation_signs_assembled {P A K : Csc α} {cones : List ConeSpec}
+    {map : LDLDataMap} (hin : KktInputs P A cones)
+    (hasm : assembleKktMatrix P A cones .triu = .ok (K, map))
+    (scal : List (ConeScaling α)) (hfits : LayoutFits scal cones)
+    (hvec : ∀ i (hi : i < scal.length), VecFits scal[i]) (nz' : Array α)
+    (hup : updateValues K.nzval map scal = .ok nz') (blocks : List (Array α))
+    (hget : scal.mapM getHs = .ok blocks)
+    (ds : Array Int) (hds : fillSigns A.m A.n map.sparse_maps = .ok ds) (cst prp : α)
+    (rr : Regularized α) (nzF : Array α)
+    (hreg : regularizeAndRestore nz' map.diag_full ds true cst prp = .ok (rr, nzF))
+    (hP : PosSemidef (PdOf P A.n))
+    (hform : ∀ i y s, 0 ≤ expForm (HOf cones blocks i) (VOf cones scal i) (eOf cones scal i) y s)
+    (hε : 0 < rr.eps) (hn : 0 < K.n)
+    (perm iperm : Array Nat) (hip : Clarabel.Perm.invperm perm = .ok iperm)
+    (hps : perm.size = K.n) (enable : Bool) (eps delta : α) (heps : eps ≤ rr.eps) :
+    (enable = true → 0 < eps → delta ≠ 0 →
+      ∃ F, Clarabel.Qdldl.new ({ K with nzval := nzF } : Csc α) perm (some ds) enable eps delta false
+        = .ok F) ∧
+    ∀ F, Clarabel.Qdldl.new ({ K with nzval := nzF } : Csc α) perm (some ds) enable eps delta false
+        = .ok F →
+      (∀ r, r < K.n → perm.getD r 0 < K.n ∧
+        ((ds.getD (perm.getD r 0) 0 = 1 ∧ rr.eps ≤ F.D.getD r 0) ∨
+         (ds.getD (perm.getD r 0) 0 = -1 ∧ F.D.getD r 0 ≤ -rr.eps))) ∧
+      F.regularizeCount = 0 ∧
+      F.positiveInertia = A.n + ∑ i : Fin cones.length, nPlus cones[i] := by
+  obtain ⟨_, hsz⟩ := assembled_sizes hin hasm scal nz' hup ds cst prp rr nzF hreg
+  obtain ⟨hw, hc, hnd, _⟩ := kkt_is_qdldl_input hin hasm nzF hsz
+  obtain ⟨hdsz, hdsv⟩ := assembled_signs_getD hin hasm ds hds
+  have hQ := assembled_quasiDefGE hin hasm scal hfits hvec nz' hup blocks hget ds hds cst prp rr nzF
+    hreg hP hform
+  have key := kkt_factorisation_signs ({ K with nzval := nzF } : Csc α) hw hc hnd hn perm iperm hip
+    hps ds hdsz (fun i => (kktEquiv A.n cones K.n (asm_order hin hasm) i).isLeft) hdsv enable eps
+    delta rr.eps hQ hε heps
+  refine ⟨key.1, fun F hF => ?_⟩
+  obtain ⟨h1, h2, h3⟩ := key.2 F hF
+  refine ⟨fun r hr => ?_, h2, ?_⟩
+  · obtain ⟨hpr, e1, e2⟩ := h1 r hr
+    refine ⟨hpr, ?_⟩
+    by_cases hs : (kktEquiv A.n cones K.n (asm_order hin hasm) ⟨perm.getD r 0, hpr⟩).isLeft = true
+    · left
+      rw [if_pos hs] at e1 e2
+      exact ⟨e1, e2⟩
+    · right
+      rw [if_neg hs] at e1 e2
+      exact ⟨e1, e2⟩
+  · rw [h3]
+    exact (assembled_plus_count hin hasm).trans (positive_inertia_count A.n cones)
+
+/-- non-vacuity of `kkt_factorisation_signs_assembled` (over ℝ): the example of
+`assembled_symOf_eq_listKkt` also satisfies `P ⪰ 0`, `hform`, `ε = 1 > 0`, `0 < K.n`; any valid
+permutation of the 10 columns (e.g. the reversed one) and any `eps ≤ 1` complete the hypotheses. -/
+example : ∃ (P A K : Csc ℝ) (cones : List ConeSpec) (map : LDLDataMap)
+    (scal : List (ConeScaling ℝ)) (nz' : Array ℝ) (blocks : List (Array ℝ)) (ds : Array Int)
+    (rr : Regularized ℝ) (nzF : Array ℝ) (iperm : Array Nat),
+    KktInputs P A cones ∧ assembleKktMatrix P A cones .triu = .ok (K, map) ∧
+    LayoutFits scal cones ∧ (∀ i (hi : i < scal.length), VecFits scal[i]) ∧
+    updateValues K.nzval map scal = .ok nz' ∧ scal.mapM getHs = .ok blocks ∧
+    fillSigns A.m A.n map.sparse_maps = .ok ds ∧
+    regularizeAndRestore nz' map.diag_full ds true 1 0 = .ok (rr, nzF) ∧
+    PosSemidef (PdOf P A.n) ∧
+    (∀ i y s, 0 ≤ expForm (HOf cones blocks i) (VOf cones scal i) (eOf cones scal i) y s) ∧
+    0 < rr.eps ∧ 0 < K.n ∧
+    Clarabel.Perm.invperm #[9, 8, 7, 6, 5, 4, 3, 2, 1, 0] = .ok iperm ∧
+    (#[9, 8, 7, 6, 5, 4, 3, 2, 1, 0] : Array Nat).size = K.n := by
+  obtain ⟨K, map, scal, nz', blocks, ds, rr, nzF, h1, h2, h3, h4, h5, h6, h7, h8, h9, h10⟩ :=
+    Clarabel.Lemmas.KktSymOfExample.exAssembled
+  refine ⟨_, _, K, _, map, scal, nz', blocks, ds, rr, nzF, #[9, 8, 7, 6, 5, 4, 3, 2, 1, 0],
+    Clarabel.Lemmas.KktSymOfExample.exInputs, h1, h2, h3, h4, h5, h6, h7,
+    Clarabel.Lemmas.KktSymOfExample.exP_psd, h10, h8, h9, by rfl, ?_⟩
+  rw [asm_order Clarabel.Lemmas.KktSymOfExample.exInputs h1]
+  decide
+
+end assembled_sym
 
 end Clarabel.C11
